@@ -117,7 +117,11 @@ Record cycle := mkCy {
 Inductive case :=
 | Churn (cycles : list cycle)
 | LoadCase (present : bool) (d : doc) (full : bool) (started : bool) (seen : doc)
-| DirLock (second_refused first_alive third_started : bool).
+| DirLock (second_refused first_alive third_started : bool)
+  (* two concurrent deleters parked between lookup and map removal, a persist parked between
+     two topic reads of GetMetadata, SIGKILL right after its rename (known finding K8):
+     the live states the daemon passed through, nsqd.dat after the kill, /stats after restart *)
+| Mix (passed : list doc) (file : option doc) (restarted : bool) (seen : doc).
 
 (* ---------------------------------------------------------------- syscall projection *)
 (* model side: the trace is a sequence of complete persist_ops runs (writes may repeat)
@@ -381,4 +385,23 @@ Definition judge (c : case) : N :=
   | DirLock second_refused first_alive third_started =>
       let ok := second_refused && first_alive && third_started in
       verdict ok ok
+  | Mix passed file restarted seen =>
+      (* model (C06_atomic): the topic set is that of one passed-through state and every entry
+         is that topic's entry in some passed-through state; the restart shows the file *)
+      let names d := map dt_name d in
+      let agree :=
+        match file with
+        | None => false
+        | Some f =>
+            existsb (fun p => set_eq name_eqb (names f) (names p)) passed
+            && forallb (fun e => existsb (fun p => existsb (dtopic_eqb e) p) passed) f
+            && restarted && doc_equiv seen f
+        end in
+      (* property: the restart state is ONE state the daemon passed through *)
+      let monitor :=
+        match file with
+        | None => false
+        | Some f => restarted && existsb (fun p => doc_equiv seen p) passed && existsb (fun p => doc_equiv f p) passed
+        end in
+      verdict agree monitor
   end.
